@@ -300,7 +300,13 @@ def apply_event(world, judge, stats, st, writer, ev, hist):
     v, files, order = st
     d = world.d
     names = {f for f, _ in files}
-    if ev[0] == "touch" and ev[1] == "g.pgc" and "g.pgc" not in names:
+    if ev[0] == "touch" and ev[1] == "g.pgc" and (
+            "g.pgc" not in names or writer is None or writer[1] != v):
+        # Touching a cache whose *content* belongs to another version of the
+        # grammar files forges the only freshness evidence the scheme has
+        # (modification times); the statement lists absent / foreign / older /
+        # incomplete caches, not forged ones.  Touching a current cache is
+        # explored.
         return None
     if ev[0] in ("touch", "edit") and ev[1].endswith(".pg") and (
             ev[1] not in world.files or
